@@ -10,8 +10,8 @@ static mut ORIG_DROPPED: u32 = 0;
 fn wakes() -> u32 { unsafe { WAKES } }
 struct Orig { magic: u32 }
 impl Wake for Orig {
-    fn wake(self: Arc<Self>) { assert!(self.magic == 0x19, "C19 the original is intact when woken"); unsafe { WAKES += 1 } }
-    fn wake_by_ref(self: &Arc<Self>) { assert!(self.magic == 0x19, "C19 the original is intact when woken"); unsafe { WAKES += 1 } }
+    fn wake(self: Arc<Self>) { assert!(self.magic == 0x19 && unsafe { ORIG_DROPPED } == 0, "C19 the original is alive and intact when woken"); unsafe { WAKES += 1 } }
+    fn wake_by_ref(self: &Arc<Self>) { assert!(self.magic == 0x19 && unsafe { ORIG_DROPPED } == 0, "C19 the original is alive and intact when woken"); unsafe { WAKES += 1 } }
 }
 impl Drop for Orig { fn drop(&mut self) { unsafe { ORIG_DROPPED += 1 } } }
 
@@ -100,6 +100,49 @@ fn p_retained_after_poll() {
     assert!(count(&keep) == 1, "C19 all clones released exactly once");
     drop(keep);
     assert!(unsafe { ORIG_DROPPED } == 1, "C19 the original is released exactly once, by its last owner");
+}
+//@ prefix=p_last kind=property clause=nothing touches the original after all foreign-side wakers are gone: when the retained waker is the ONLY holder of the caller's waker, waking it by value wakes a live original exactly once and releases it exactly once afterwards; repeated wakes through one retained waker each reach the original
+#[kani::proof]
+#[kani::unwind(3)]
+fn p_last_holder_wake() {
+    let arc = Arc::new(Orig { magic: 0x19 });
+    let waker = Waker::from(arc);            // the caller's waker holds the only count
+    let retained = {
+        let c = CRefWaker::from(&waker);
+        c.with_waker(|w| w.clone())
+    };
+    drop(waker);                             // now the retained foreign-side waker is the last holder
+    assert!(unsafe { ORIG_DROPPED } == 0, "C19 the original is alive while a foreign-side waker exists");
+    if kani::any() { retained.wake(); } else { retained.wake_by_ref(); drop(retained); }
+    assert!(wakes() == 1, "C19 the last holder's wake reaches the original exactly once");
+    assert!(unsafe { ORIG_DROPPED } == 1, "C19 the original is released exactly once, after the wake");
+}
+#[kani::proof]
+#[kani::unwind(3)]
+fn p_last_two_wakes_minimal() {
+    let (_keep, waker) = setup();
+    let c = CRefWaker::from(&waker);
+    c.with_waker(|w| {
+        let f = w.clone();
+        f.wake_by_ref();
+        f.wake_by_ref();
+        assert!(wakes() == 2, "C19 two wakes through one owned waker reach the original twice (no coalescing)");
+        drop(f);
+    });
+}
+#[kani::proof]
+#[kani::unwind(3)]
+fn p_last_repeated_wakes() {
+    let (keep, waker) = setup();
+    let retained = { let c = CRefWaker::from(&waker); c.with_waker(|w| w.clone()) };
+    retained.wake_by_ref();
+    retained.wake_by_ref();
+    assert!(wakes() == 2, "C19 every wake through one retained waker reaches the original (no coalescing)");
+    let sib = retained.clone();
+    retained.wake();
+    sib.wake();
+    assert!(wakes() == 4, "C19 a sibling's wake after its clone was woken still reaches the original");
+    assert!(count(&keep) == 2, "C19 all clones released");
 }
 //@ prefix=p_e2e kind=property clause=end-to-end: a future polled through an opaque object (trait_obj!(fut as Future)) receives a waker whose wake reaches the caller's original, and whose clones are released
 #[kani::proof]
